@@ -1049,6 +1049,12 @@ class Extractor:
             p.effects.append(('continue',))
             p.done = True
             return [p]
+        if isinstance(st, ast.Break):
+            # leaves the loop: kept in the row's outcome (a `break` where the specification has `continue` is a
+            # different table), not interpreted any further
+            p.effects.append(('break',))
+            p.done = True
+            return [p]
         raise Unsupported(f'statement {type(st).__name__}')
 
     def pattern(self, pat, subj):
@@ -1232,7 +1238,7 @@ class Extractor:
             subpaths = self.block(body, [sub], b2) + [skip]
         else:
             subpaths = self.block(body, [sub], b2)
-        returning = [q for q in subpaths if q.done and not any(e[0] == 'continue' for e in q.effects)]
+        returning = [q for q in subpaths if q.done and not any(e[0] in ('continue', 'break') for e in q.effects)]
         effectful = [q for q in subpaths if [e for e in q.effects if e[0] != 'continue']]
         if len(returning) > 1 and not effectful and len({(repr(q.ret), q.raised) for q in returning}) == 1:
             # several exits with the same result: one exit under the disjunction of their conditions
